@@ -15,6 +15,7 @@ import Driver.Relay
 import Driver.DevConn
 import Driver.RsPos
 import Driver.RsTask
+import Driver.MqttAck
 
 def main (args : List String) : IO UInt32 := do
   match args with
@@ -35,4 +36,5 @@ def main (args : List String) : IO UInt32 := do
   | ["devconn"] => Driver.DevConnDrv.main; return 0
   | ["rspos"] => Driver.RsPosDrv.main; return 0
   | ["rstask"] => Driver.RsTaskDrv.main; return 0
+  | ["mqttack"] => Driver.MqttAckDrv.main; return 0
   | _ => IO.eprintln "usage: svdrv <subsystem>"; return 2
